@@ -1,4 +1,5 @@
 import ApdVerif.Spec.Order
+import ApdVerif.Lemmas.C15Lemmas
 /-!
 # C15 — Cmp is the exact numeric order and CmpTotal is the documented total order
 -/
@@ -9,42 +10,205 @@ open Apd
 apart exponents and digit counts are (all three paths of the code). -/
 theorem C15_cmp (d x : Dec) (hd : d.isNaN = false) (hx : x.isNaN = false) :
     d.cmp x = specCmp d x := by
-  sorry
+  obtain ⟨df, dn, de, dc⟩ := d
+  obtain ⟨xf, xn, xe, xc⟩ := x
+  cases df
+  · cases xf
+    · rw [cmp_finite _ _ rfl rfl, specCmp_finite _ _ rfl rfl]
+    · by_cases hc : dc = 0 <;> cases dn <;> cases xn <;>
+        simp [Dec.cmp, Dec.sign, specCmp, hc]
+    · simp [Dec.isNaN] at hx
+    · simp [Dec.isNaN] at hx
+  · cases xf
+    · by_cases hc : xc = 0 <;> cases dn <;> cases xn <;>
+        simp [Dec.cmp, Dec.sign, specCmp, hc]
+    · cases dn <;> cases xn <;> simp [Dec.cmp, Dec.sign, specCmp, cmpInt]
+    · simp [Dec.isNaN] at hx
+    · simp [Dec.isNaN] at hx
+  · simp [Dec.isNaN] at hd
+  · simp [Dec.isNaN] at hd
 
 /-- Context.Cmp: NaN prologue, otherwise the result is Decimal.Cmp as a decimal -/
 theorem C15_ctxCmp (c : Ctx) (x y : Dec) (hx : x.isNaN = false) (hy : y.isNaN = false) :
     (cmpOp c x y).d = decOfInt (specCmp x y) ∧ (cmpOp c x y).fl = {} ∧ (cmpOp c x y).err = .none := by
-  sorry
+  have h : shouldSetAsNaN x (some y) = false := by simp [shouldSetAsNaN, hx, hy]
+  unfold cmpOp
+  rw [h, C15_cmp x y hx hy]
+  simp
 
 theorem C15_total_range (d x : Dec) : d.cmpTotal x = -1 ∨ d.cmpTotal x = 0 ∨ d.cmpTotal x = 1 := by
-  sorry
+  rcases Int.lt_trichotomy d.cmpOrder x.cmpOrder with h | h | h
+  · left; exact cmpTotal_of_lt d x h
+  · obtain ⟨hf, hn⟩ := (cmpOrder_eq_iff d x).1 h
+    cases hdf : d.form
+    · rw [cmpTotal_finite d x hdf (hf ▸ hdf) hn (min d.exp x.exp) (Int.min_le_left ..) (Int.min_le_right ..)]
+      cases d.neg <;> simp only [if_true, if_false, Bool.false_eq_true] <;> (repeat' split) <;> simp
+    · rw [cmpTotal_infinite d x hdf (hf ▸ hdf) hn]; simp
+    · rw [cmpTotal_nan d x (by simp [hdf]) (by simp [hdf]) hf hn]; exact cmpNat_range _ _
+    · rw [cmpTotal_nan d x (by simp [hdf]) (by simp [hdf]) hf hn]; exact cmpNat_range _ _
+  · right; right; exact cmpTotal_of_gt d x h
 
 theorem C15_total_antisymm (d x : Dec) : x.cmpTotal d = - d.cmpTotal x := by
-  sorry
+  rcases Int.lt_trichotomy d.cmpOrder x.cmpOrder with h | h | h
+  · rw [cmpTotal_of_lt d x h, cmpTotal_of_gt x d h]; rfl
+  · obtain ⟨hf, hn⟩ := (cmpOrder_eq_iff d x).1 h
+    cases hdf : d.form
+    · have hxf : x.form = .finite := hf ▸ hdf
+      rw [cmpTotal_finite d x hdf hxf hn (min d.exp x.exp) (Int.min_le_left ..) (Int.min_le_right ..),
+        cmpTotal_finite x d hxf hdf hn.symm (min d.exp x.exp) (Int.min_le_right ..) (Int.min_le_left ..),
+        ← hn]
+      generalize signedScaled d (min d.exp x.exp) = A
+      generalize signedScaled x (min d.exp x.exp) = B
+      cases d.neg <;> simp only [if_true, if_false, Bool.false_eq_true] <;> (repeat' split) <;> omega
+    · rw [cmpTotal_infinite d x hdf (hf ▸ hdf) hn, cmpTotal_infinite x d (hf ▸ hdf) hdf hn.symm]; rfl
+    · rw [cmpTotal_nan d x (by simp [hdf]) (by simp [hdf]) hf hn,
+        cmpTotal_nan x d (by simp [← hf, hdf]) (by simp [← hf, hdf]) hf.symm hn.symm, cmpNat_antisymm]
+    · rw [cmpTotal_nan d x (by simp [hdf]) (by simp [hdf]) hf hn,
+        cmpTotal_nan x d (by simp [← hf, hdf]) (by simp [← hf, hdf]) hf.symm hn.symm, cmpNat_antisymm]
+  · rw [cmpTotal_of_gt d x h, cmpTotal_of_lt x d h]
 
 theorem C15_total_zero_iff (d x : Dec) : d.cmpTotal x = 0 ↔ sameRepr d x := by
-  sorry
+  unfold sameRepr
+  rcases Int.lt_trichotomy d.cmpOrder x.cmpOrder with h | h | h
+  · rw [cmpTotal_of_lt d x h]
+    constructor
+    · intro h0; simp at h0
+    · rintro ⟨hf, hn, _⟩
+      have := (cmpOrder_eq_iff d x).2 ⟨hf, hn⟩; omega
+  · obtain ⟨hf, hn⟩ := (cmpOrder_eq_iff d x).1 h
+    cases hdf : d.form
+    · have hxf : x.form = .finite := hf ▸ hdf
+      rw [cmpTotal_finite d x hdf hxf hn (min d.exp x.exp) (Int.min_le_left ..) (Int.min_le_right ..)]
+      simp only [← hf, hdf, hn, true_and]
+      constructor
+      · intro h0
+        have he : d.exp = x.exp := by
+          revert h0; cases x.neg <;> simp only [if_true, if_false, Bool.false_eq_true] <;> (repeat' split) <;> omega
+        have hA : signedScaled d (min d.exp x.exp) = signedScaled x (min d.exp x.exp) := by
+          revert h0; cases x.neg <;> simp only [if_true, if_false, Bool.false_eq_true] <;> (repeat' split) <;> omega
+        exact ⟨signedScaled_inj d x _ hn he hA, he⟩
+      · rintro ⟨hc, he⟩
+        rw [signedScaled_congr d x _ hn he hc, he]; simp
+    · rw [cmpTotal_infinite d x hdf (hf ▸ hdf) hn]; simp [← hf, hdf, hn]
+    · rw [cmpTotal_nan d x (by simp [hdf]) (by simp [hdf]) hf hn, cmpNat_eq_zero_iff]
+      simp [← hf, hdf, hn]
+    · rw [cmpTotal_nan d x (by simp [hdf]) (by simp [hdf]) hf hn, cmpNat_eq_zero_iff]
+      simp [← hf, hdf, hn]
+  · rw [cmpTotal_of_gt d x h]
+    constructor
+    · intro h0; simp at h0
+    · rintro ⟨hf, hn, _⟩
+      have := (cmpOrder_eq_iff d x).2 ⟨hf, hn⟩; omega
 
 theorem C15_total_trans (d x y : Dec) (h1 : d.cmpTotal x ≤ 0) (h2 : x.cmpTotal y ≤ 0) :
     d.cmpTotal y ≤ 0 := by
-  sorry
+  have hdx : d.cmpOrder ≤ x.cmpOrder := by
+    apply Int.not_lt.1; intro hlt; rw [cmpTotal_of_gt d x hlt] at h1; omega
+  have hxy : x.cmpOrder ≤ y.cmpOrder := by
+    apply Int.not_lt.1; intro hlt; rw [cmpTotal_of_gt x y hlt] at h2; omega
+  by_cases hlt : d.cmpOrder < y.cmpOrder
+  · rw [cmpTotal_of_lt d y hlt]; omega
+  · have e1 : d.cmpOrder = x.cmpOrder := by omega
+    have e2 : x.cmpOrder = y.cmpOrder := by omega
+    obtain ⟨hf1, hn1⟩ := (cmpOrder_eq_iff d x).1 e1
+    obtain ⟨hf2, hn2⟩ := (cmpOrder_eq_iff x y).1 e2
+    cases hdf : d.form
+    · have hxf : x.form = .finite := hf1 ▸ hdf
+      have hyf : y.form = .finite := hf2 ▸ hxf
+      have m1 : min d.exp (min x.exp y.exp) ≤ d.exp := by omega
+      have m2 : min d.exp (min x.exp y.exp) ≤ x.exp := by omega
+      have m3 : min d.exp (min x.exp y.exp) ≤ y.exp := by omega
+      rw [cmpTotal_finite_le d x hdf hxf hn1 _ m1 m2] at h1
+      rw [cmpTotal_finite_le x y hxf hyf hn2 _ m2 m3, ← hn1] at h2
+      rw [cmpTotal_finite_le d y hdf hyf (hn1.trans hn2) _ m1 m3]
+      generalize signedScaled d (min d.exp (min x.exp y.exp)) = A at h1 h2 ⊢
+      generalize signedScaled x (min d.exp (min x.exp y.exp)) = B at h1 h2 ⊢
+      generalize signedScaled y (min d.exp (min x.exp y.exp)) = C at h1 h2 ⊢
+      revert h1 h2
+      cases d.neg <;> simp only [if_true, if_false, Bool.false_eq_true] <;> omega
+    · rw [cmpTotal_infinite d y hdf (hf2 ▸ hf1 ▸ hdf) (hn1.trans hn2)]; omega
+    · rw [cmpTotal_nan d x (by simp [hdf]) (by simp [hdf]) hf1 hn1, cmpNat_le_zero_iff] at h1
+      rw [cmpTotal_nan x y (by simp [← hf1, hdf]) (by simp [← hf1, hdf]) hf2 hn2, cmpNat_le_zero_iff] at h2
+      rw [cmpTotal_nan d y (by simp [hdf]) (by simp [hdf]) (hf1.trans hf2) (hn1.trans hn2), cmpNat_le_zero_iff]
+      omega
+    · rw [cmpTotal_nan d x (by simp [hdf]) (by simp [hdf]) hf1 hn1, cmpNat_le_zero_iff] at h1
+      rw [cmpTotal_nan x y (by simp [← hf1, hdf]) (by simp [← hf1, hdf]) hf2 hn2, cmpNat_le_zero_iff] at h2
+      rw [cmpTotal_nan d y (by simp [hdf]) (by simp [hdf]) (hf1.trans hf2) (hn1.trans hn2), cmpNat_le_zero_iff]
+      omega
 
 /-- CmpTotal agrees with Cmp on numerically different numbers -/
 theorem C15_total_agrees (d x : Dec) (hd : d.isNaN = false) (hx : x.isNaN = false)
     (h : specCmp d x ≠ 0) : d.cmpTotal x = specCmp d x := by
-  sorry
+  cases hdf : d.form
+  · cases hxf : x.form
+    · rw [specCmp_finite d x hdf hxf] at h ⊢
+      cases hdn : d.neg <;> cases hxn : x.neg
+      · rw [cmpTotal_finite d x hdf hxf (hdn.trans hxn.symm) _ (Int.min_le_left ..) (Int.min_le_right ..)]
+        rcases Int.lt_trichotomy (signedScaled d (min d.exp x.exp)) (signedScaled x (min d.exp x.exp))
+          with hl | hl | hl
+        · rw [cmpInt_lt hl]; simp [hl]
+        · rw [cmpInt_eq hl] at h; contradiction
+        · rw [cmpInt_gt hl]
+          have : ¬ signedScaled d (min d.exp x.exp) < signedScaled x (min d.exp x.exp) := by omega
+          simp [hl, this]
+      · have ho : x.cmpOrder < d.cmpOrder := by simp [Dec.cmpOrder, hdf, hxf, hdn, hxn]
+        have hA := signedScaled_nonneg d (min d.exp x.exp) hdn
+        have hB := signedScaled_nonpos x (min d.exp x.exp) hxn
+        have hne : signedScaled d (min d.exp x.exp) ≠ signedScaled x (min d.exp x.exp) :=
+          fun he => h (cmpInt_eq he)
+        rw [cmpTotal_of_gt d x ho, cmpInt_gt (by omega)]
+      · have ho : d.cmpOrder < x.cmpOrder := by simp [Dec.cmpOrder, hdf, hxf, hdn, hxn]
+        have hA := signedScaled_nonpos d (min d.exp x.exp) hdn
+        have hB := signedScaled_nonneg x (min d.exp x.exp) hxn
+        have hne : signedScaled d (min d.exp x.exp) ≠ signedScaled x (min d.exp x.exp) :=
+          fun he => h (cmpInt_eq he)
+        rw [cmpTotal_of_lt d x ho, cmpInt_lt (by omega)]
+      · rw [cmpTotal_finite d x hdf hxf (hdn.trans hxn.symm) _ (Int.min_le_left ..) (Int.min_le_right ..)]
+        rcases Int.lt_trichotomy (signedScaled d (min d.exp x.exp)) (signedScaled x (min d.exp x.exp))
+          with hl | hl | hl
+        · rw [cmpInt_lt hl]; simp [hl]
+        · rw [cmpInt_eq hl] at h; contradiction
+        · rw [cmpInt_gt hl]
+          have : ¬ signedScaled d (min d.exp x.exp) < signedScaled x (min d.exp x.exp) := by omega
+          simp [hl, this]
+    · cases hdn : d.neg <;> cases hxn : x.neg <;>
+        simp [Dec.cmpTotal, Dec.cmpOrder, specCmp, hdf, hxf, hdn, hxn]
+    · simp [Dec.isNaN, hxf] at hx
+    · simp [Dec.isNaN, hxf] at hx
+  · cases hxf : x.form
+    · cases hdn : d.neg <;> cases hxn : x.neg <;>
+        simp [Dec.cmpTotal, Dec.cmpOrder, specCmp, hdf, hxf, hdn, hxn]
+    · revert h
+      cases hdn : d.neg <;> cases hxn : x.neg <;>
+        simp [Dec.cmpTotal, Dec.cmpOrder, specCmp, cmpInt, hdf, hxf, hdn, hxn]
+    · simp [Dec.isNaN, hxf] at hx
+    · simp [Dec.isNaN, hxf] at hx
+  · simp [Dec.isNaN, hdf] at hd
+  · simp [Dec.isNaN, hdf] at hd
 
 /-- equal-valued finite representations are ordered by exponent, reversed for negatives -/
 theorem C15_total_exponent (d x : Dec) (hd : d.form = .finite) (hx : x.form = .finite)
     (hn : d.neg = x.neg) (h : specCmp d x = 0) (he : d.exp < x.exp) :
     d.cmpTotal x = (if d.neg then 1 else -1) := by
-  sorry
+  have hA := (cmpInt_eq_zero_iff _ _).1 (specCmp_finite d x hd hx ▸ h)
+  rw [cmpTotal_finite d x hd hx hn (min d.exp x.exp) (Int.min_le_left ..) (Int.min_le_right ..)]
+  simp [hA, he]
 
 /-- -NaN < -sNaN < -Inf < -finite < +finite < +Inf < +sNaN < +NaN -/
 theorem C15_total_forms (d x : Dec) (h : d.cmpOrder < x.cmpOrder) : d.cmpTotal x = -1 := by
-  sorry
+  exact cmpTotal_of_lt d x h
 
 example : ({ coeff := 1230, exp := -3 } : Dec).cmp { coeff := 123, exp := -2 } = 0 := by decide
 example : ({ coeff := 1230, exp := -3 } : Dec).cmpTotal { coeff := 123, exp := -2 } = -1 := by decide
+
+#print axioms C15_cmp
+#print axioms C15_ctxCmp
+#print axioms C15_total_range
+#print axioms C15_total_antisymm
+#print axioms C15_total_zero_iff
+#print axioms C15_total_trans
+#print axioms C15_total_agrees
+#print axioms C15_total_exponent
+#print axioms C15_total_forms
 
 end Apd.Props
